@@ -85,13 +85,33 @@ class Module:
 		if self.__identity:
 			return self.__identity
 
-		if self.__depends is not None:
-			# 依存モジュールの識別子を再帰的に含めることで、間接的にインポートしたモジュールの変更も反映
-			identities = [module.identity() for module in self.__depends]
-		else:
-			depends_files = [module_path_to_filepath(import_node.import_path.tokens, f'.{self.module_path.language}') for import_node in self.entrypoint.imports]
-			identities = [self.__sources.hash(filepath) for filepath in depends_files]
-
-		identities.append(self.__sources.hash(self.filepath))
+		# インポートの閉包に含まれる全ファイルのハッシュ値を基に生成することで、間接的にインポートしたモジュールの変更も反映
+		# XXX 閉包は訪問済みのファイルを記録しながら収集するため、循環インポートでも停止する。ファイルパス順に整列するため、収集順に依存しない
+		hashes: dict[str, str] = {}
+		self.__collect_hashes(hashes)
+		identities = [f'{filepath}:{hashes[filepath]}' for filepath in sorted(hashes.keys()) if filepath != self.filepath]
+		identities.append(hashes[self.filepath])
 		self.__identity = hashlib.md5(str(identities).encode('utf-8')).hexdigest()
 		return self.__identity
+
+	def __collect_hashes(self, hashes: dict[str, str]) -> None:
+		"""自身とインポートの閉包に含まれるファイルのハッシュ値を収集
+
+		Args:
+			hashes: ファイルパスとハッシュ値のマップ(収集先)
+		Note:
+			依存モジュールが未登録(ロード中)のモジュールは、直接インポートしているファイルのみを対象とする
+		"""
+		if self.filepath in hashes:
+			return
+
+		hashes[self.filepath] = self.__sources.hash(self.filepath)
+		if self.__depends is not None:
+			for module in self.__depends:
+				if module.in_storage():
+					module.__collect_hashes(hashes)
+		else:
+			for import_node in self.entrypoint.imports:
+				filepath = module_path_to_filepath(import_node.import_path.tokens, f'.{self.module_path.language}')
+				if filepath not in hashes:
+					hashes[filepath] = self.__sources.hash(filepath)
